@@ -686,7 +686,7 @@ package engine
 //@   loop 1 invariant newest: len(matches.store) > 0 ==> matches.store[len(matches.store) - 1].MatchNumber == matchNumber
 //@   loop 1 decreases reader.size - fileOffset
 //@   loop 2 invariant vm: cellOk(currentState) && currentState.startFileOffset == fileOffset && currentState.startLineNum == lineNumber && currentState.startColumnNum == columnNumber && currentState.reader == reader && currentState.filename == filename && rdData(reader) == d
-//@   loop 2 invariant keep: matches != nil && fresh(matches) && (matches.store.ref == 0 || fresh(matches.store)) && 0 <= fileOffset && fileOffset < reader.size && startsAt(d, fileOffset, lineNumber, columnNumber) && matchNumber >= 0
+//@   loop 2 invariant keep: rdInv(reader) && matches != nil && fresh(matches) && (matches.store.ref == 0 || fresh(matches.store)) && 0 <= fileOffset && fileOffset < reader.size && startsAt(d, fileOffset, lineNumber, columnNumber) && matchNumber >= 0
 //@   loop 2 invariant each: forall k :: { matches.store[k] } 0 <= k && k < len(matches.store) ==> matchOk(matches.store[k], d, filename) && matches.store[k].Offset.End <= fileOffset && matches.store[k].MatchNumber <= matchNumber && matches.store[k].MatchNumber > skip
 //@   loop 2 invariant ordered: forall k :: { matches.store[k] } { matches.store[k + 1] } 0 <= k && k + 1 < len(matches.store) ==> matches.store[k].Offset.End <= matches.store[k + 1].Offset.Start
 //@   loop 2 invariant numbered: forall k :: { matches.store[k] } { matches.store[k + 1] } 0 <= k && k + 1 < len(matches.store) ==> matches.store[k + 1].MatchNumber == matches.store[k].MatchNumber + 1
